@@ -52,7 +52,7 @@ func LoadEngine(repoDir string, patterns []string) (*Engine, error) {
 	prog.Build()
 	e := &Engine{prog: prog, pkgs: map[string]*packages.Package{}, ssaPkgs: map[string]*ssa.Package{}, funcs: map[string]*ssa.Function{},
 		db: NewSpecDB(), ghostByType: map[string]*GhostField{}, ghostOwnerSort: map[string]string{}, ghostOwnerType: map[string]types.Type{}, repoDir: repoDir,
-		inlineDepth: 3, inlineSize: 60, inlinePkgs: map[string]bool{"github.com/ipfs/go-cid": true}, makeLimit: "9223372036854775807"}
+		inlineDepth: 3, inlineSize: 60, inlinePkgs: map[string]bool{"github.com/ipfs/go-cid": true, "github.com/polydawn/refmt/tok": true}, makeLimit: "9223372036854775807"}
 	packages.Visit(pkgs, nil, func(p *packages.Package) {
 		e.pkgs[p.PkgPath] = p
 		if p.Module != nil && p.Module.Main {
@@ -276,6 +276,9 @@ func (e *Engine) VerifyFunction(key string, property string, safety bool) (res *
 		res.Trusted = c.trustedUsed
 		res.Inlined = c.inlined
 		res.Assumed = c.assumedClauses
+		if c.foreignUsed {
+			res.Assumed["separation: calls with 'assigns foreign' (assemblers, callbacks) do not write objects owned by "+c.fnKey()+" (its pointer parameters' objects, its own allocations, globals)"] = true
+		}
 		c.finish(res)
 	}()
 	c.run()
